@@ -44,6 +44,48 @@ CHECKS = {
             "Schedules are sampled (hook delays), not enumerated; TSan only sees intercepted "
             "synchronisation; fault injection on the plain build only; ASan red zones.",
             "DESIGN.md section 2, C17"),
+    "C09": ("exploration",
+            "model-based runtime monitoring: seeded histories of ext2fs_file_*/punch/fallocate calls "
+            "(C driver, no oracle inside) judged against a sparse byte-array model, independent "
+            "read-back by pyext4, e2fsck -fn + independent checker; plain and ASan builds",
+            "Every read, the final bytes of every file as seen by a reader that shares no code with "
+            "libext2fs, sizes, and filesystem consistency (incl. i_blocks/bitmaps via e2fsck -fn and "
+            "pyext4) match the model over histories on extent, block-mapped, bigalloc and inline-data "
+            "files at 1k/4k blocks, interleaved over 3-5 files, empty and nearly full filesystems.",
+            "After an allocation failure the failing file's content is no longer judged; fallocate is "
+            "used as its callers use it (no initialised blocks past EOF, FORCE_INIT only with zeroing).",
+            "DESIGN.md section 2, C09"),
+    "C12": ("exploration",
+            "runtime monitoring at the device boundary: SHA-256 of the device before the first recorded "
+            "run vs after e2undo over tool chains, kill/unfinished injection (LD_PRELOAD), and "
+            "fault_enumeration of single-bit damage judged with an independent undo-layout parser",
+            "Chains of 1-5 recorded runs (mke2fs/tune2fs/resize2fs/e2fsck/debugfs/e2undo -z) restore "
+            "byte-exactly over the original length; abnormally ended recordings restore and mark the fs; "
+            "every sampled single-bit damage of header/key/data blocks and foreign undo files are "
+            "refused without a write; -n never writes.",
+            "Kill model = process death (page cache survives); undo block sizes are those the tools "
+            "pick; three located defects are listed as known findings (F1, F5, F8).",
+            "DESIGN.md section 2, C12"),
+    "C19": ("exploration",
+            "runtime monitoring with an independent metadata enumeration (pyext4) and an independent "
+            "qcow2 reader: byte comparison of every metadata block between source and image, tool "
+            "output equality, source hash/mtime before/after",
+            "For corpus images, images with pending journals and multi-GB sparse images crossing qcow2 L2 "
+            "and refcount-block boundaries: every metadata block identical in -r/-Q images, e2fsck/"
+            "dumpe2fs agree, qcow2->raw equals direct raw and the independent qcow2 reader, -ra preserves "
+            "every owned block and the tree digest, source never modified.",
+            "Exemptions are exactly e2image's documented omissions (backup sb/gdt, uninit bitmaps/tables).",
+            "DESIGN.md section 2, C19"),
+    "C20": ("exploration",
+            "runtime monitoring with an independent backup-placement formula and field-wise comparison "
+            "(pyext4), plus destroy-primary/restore-from-each-backup experiments judged by e2fsck -fn, "
+            "the independent checker and the tree digest",
+            "Over generated geometries (1k-4k blocks, 1-130 groups, sparse_super/sparse_super2/none, "
+            "meta_bg, flex_bg, 64bit) after mke2fs and after resize2fs/tune2fs/repairing e2fsck: every "
+            "prescribed backup location holds a valid current copy, none elsewhere, and restoring from "
+            "first/last/other backups yields a consistent filesystem with an identical tree.",
+            "meta_bg last-group descriptor copies are judged statically only (libext2fs never reads them).",
+            "DESIGN.md section 2, C20"),
 }
 
 NOT_YET = "check not built yet in this round (planned, see DESIGN.md section 2)"
